@@ -249,7 +249,12 @@ def run(tier):
         n = fn['n']
         try:
             if n.startswith('buffer_'): probs = bufinput.check_accessor(db, fn)
-            elif n == 'require': probs = bufinput.check_require(db, fn)
+            elif n == 'require':
+                probs = bufinput.check_require(db, fn)
+                # and on every small concrete window (buffers of 1..4 bytes): exits, overflow, and what the reader is asked for
+                p2, paths2 = bufinput.check_require_concrete(db, fn)
+                R.cov['require_concrete_paths'] = R.cov.get('require_concrete_paths', 0) + paths2
+                probs = list(probs) + list(p2)
             elif n == 'discard': probs = bufinput.check_discard(db, fn)
             elif n in ('size', 'empty', 'end'): probs = bufinput.check_query(db, fn)
             elif n in ('bump', 'bump_in_this_line', 'bump_to_next_line'): probs = bufinput.check_bump(db, fn)
